@@ -2,10 +2,20 @@ package main
 
 import (
 	"fmt"
+	"go/ast"
+	"go/parser"
+	"go/token"
 	"math"
+	"os"
+	"path/filepath"
+	"reflect"
+	"runtime"
+	"sort"
 	"strconv"
 	"strings"
+	"sync"
 
+	"github.com/pinealctx/neptune/cache"
 	"github.com/pinealctx/neptune/remap"
 
 	"nvharness/lib/corr"
@@ -195,14 +205,33 @@ func genCase(r *rng.R, tier string, i int) corr.Case {
 		capacity = r.Range(0, 14)
 		head := fmt.Sprintf("wnew %s %d %d %d mod", kd, capacity, shards, u)
 		tag := "wide-mod-" + kd
-		if r.Chance(1, 2) {
+		if x := r.Intn(3); x > 0 {
+			// table routing: keys of every type remap supports (negative ints, int64/uint64 extremes, short and long
+			// strings); the shard of each key is read from the real remap package (simple or xxhash route)
+			u = 12
 			rm := remap.NewReMap(remap.WithPrime(uint64(shards)))
 			var tab []string
 			for k := 0; k < u; k++ {
-				tab = append(tab, strconv.Itoa(rm.XHashIndex(k)))
+				idx := 0
+				func() {
+					defer func() { _ = recover() }()
+					if x == 1 {
+						idx = rm.XHashIndex(wideKey(k))
+					} else {
+						idx = rm.SimpleIndex(wideKey(k))
+					}
+				}()
+				if idx < 0 || idx >= shards {
+					idx = 0 // an index outside the shard slice: the script keeps a legal table, the wide cache itself will panic on that key
+				}
+				tab = append(tab, strconv.Itoa(idx))
 			}
-			head = fmt.Sprintf("wnew %s %d %d %d tab %s", kd, capacity, shards, u, strings.Join(tab, ","))
+			mode := "tab"
 			tag = "wide-xhash-" + kd
+			if x == 2 {
+				mode, tag = "tabs", "wide-simple-"+kd
+			}
+			head = fmt.Sprintf("wnew %s %d %d %d %s %s", kd, capacity, shards, u, mode, strings.Join(tab, ","))
 		}
 		lines := []string{head}
 		per := capacity/shards + 1
@@ -238,6 +267,43 @@ func genCase(r *rng.R, tier string, i int) corr.Case {
 		}
 		lines = append(lines, fmt.Sprintf("conc %d %d %d", r.Intn(100000), r.Range(2, 8), ops))
 		return corr.Case{Tag: "concurrent-" + kd, Lines: lines}
+	case cls == 85: // very long lists (Keys/Items/removed list far beyond 256 entries; lengths also taken from the source's own constants)
+		lens := []int{257, 300, 301, 600, 1200}
+		for _, c := range minedConstants() {
+			if c >= 14 && c <= 3000 {
+				lens = append(lens, int(c)+1, int(c)+5)
+			}
+		}
+		length := lens[r.Intn(len(lens))]
+		lines := []string{fmt.Sprintf("new %s %d", kd, length+r.Intn(3)), fmt.Sprintf("fill 0 %d 1", length)}
+		for j := 0; j < 14; j++ {
+			k := r.Intn(length + 3)
+			g.line++
+			switch r.Intn(8) {
+			case 0, 1:
+				lines = append(lines, fmt.Sprintf("del %d", k))
+			case 2:
+				lines = append(lines, fmt.Sprintf("peek %d", k))
+			case 3:
+				lines = append(lines, fmt.Sprintf("get %d", k))
+			case 4:
+				lines = append(lines, fmt.Sprintf("set %d %d 1", length+10+j, 200000+g.line))
+			case 5:
+				lines = append(lines, "keys")
+			case 6:
+				lines = append(lines, "items")
+			default:
+				lines = append(lines, fmt.Sprintf("exist %d", k))
+			}
+		}
+		// one store that evicts most of the list: the removed list has hundreds of entries
+		if kd == "lru" {
+			lines = append(lines, fmt.Sprintf("sgr %d %d %d", length+50, 300000, length-r.Range(5, 20)))
+		} else {
+			lines = append(lines, fmt.Sprintf("cap %d", r.Range(3, 9)))
+		}
+		lines = append(lines, "stats")
+		return corr.Case{Tag: "xlong-" + kd, Lines: lines}
 	case cls < 86: // long lists (Delete / Peek / Get far beyond a dozen or 64 entries), unit-ish sizes
 		capacity = r.Range(14, 160)
 		lines := []string{fmt.Sprintf("new %s %d", kd, capacity)}
@@ -267,6 +333,11 @@ func genCase(r *rng.R, tier string, i int) corr.Case {
 		return corr.Case{Tag: "long-" + kd, Lines: lines}
 	case cls < 94: // large capacities and sizes (2^20 … MaxInt64/2), nil key, nil values, keys of every Go type
 		big := []int64{1 << 20, 1<<20 + 1, 1<<21 + 3, 1 << 31, 1<<32 + 7, 1 << 40, 1<<62 - 1, 1 << 62, math.MaxInt64}
+		for _, c := range minedConstants() {
+			if c > 64 {
+				big = append(big, c, c+1) // thresholds written into the source are boundary values worth probing
+			}
+		}
 		c0 := big[r.Intn(len(big))]
 		lines := []string{fmt.Sprintf("new %s %d", kd, c0)}
 		cur := c0
@@ -390,4 +461,54 @@ func spec() corr.Spec {
 			return "C04:" + pkg + ":" + m + ":differs-from-model"
 		},
 	}
+}
+
+// minedConstants: the integer literals that occur in the source of the packages under test (found through the file
+// path the compiler recorded for cache.NewLRUCache). They steer the generator to thresholds an edit may introduce
+// ("refuse above 300 entries", "clamp at 1<<20"): a dictionary, as fuzzers use; nothing is decided by them.
+var minedOnce sync.Once
+var mined []int64
+
+func minedConstants() []int64 {
+	minedOnce.Do(func() {
+		file, _ := runtime.FuncForPC(reflect.ValueOf(cache.NewLRUCache).Pointer()).FileLine(0)
+		dir := filepath.Dir(file)
+		seen := map[int64]bool{}
+		for _, d := range []string{dir, filepath.Join(dir, "tiny"), filepath.Join(filepath.Dir(dir), "remap")} {
+			ents, _ := os.ReadDir(d)
+			for _, e := range ents {
+				if e.IsDir() || !strings.HasSuffix(e.Name(), ".go") || strings.HasSuffix(e.Name(), "_test.go") {
+					continue
+				}
+				f, err := parser.ParseFile(token.NewFileSet(), filepath.Join(d, e.Name()), nil, 0)
+				if err != nil {
+					continue
+				}
+				ast.Inspect(f, func(n ast.Node) bool {
+					if bl, ok := n.(*ast.BasicLit); ok && bl.Kind == token.INT {
+						if v, err := strconv.ParseInt(bl.Value, 0, 64); err == nil && v >= 2 && !seen[v] {
+							seen[v] = true
+							mined = append(mined, v)
+						}
+					}
+					if be, ok := n.(*ast.BinaryExpr); ok && be.Op == token.SHL {
+						// 1 << 20 and the like
+						if a, ok1 := be.X.(*ast.BasicLit); ok1 {
+							if b, ok2 := be.Y.(*ast.BasicLit); ok2 {
+								x, e1 := strconv.ParseInt(a.Value, 0, 64)
+								y, e2 := strconv.ParseInt(b.Value, 0, 64)
+								if e1 == nil && e2 == nil && y >= 0 && y < 62 && x > 0 && x < 4 && !seen[x<<uint(y)] {
+									seen[x<<uint(y)] = true
+									mined = append(mined, x<<uint(y))
+								}
+							}
+						}
+					}
+					return true
+				})
+			}
+		}
+		sort.Slice(mined, func(i, j int) bool { return mined[i] < mined[j] })
+	})
+	return mined
 }
